@@ -248,6 +248,22 @@ class StmtMixin:
             s.value._elt_hint = t.elt
         if isinstance(s.value, ast.Dict) and not s.value.keys and isinstance(t, TDict):
             s.value._hint = t
+        if isinstance(s.value, ast.ListComp):
+            # element type of the comprehension: the sidecar's field declaration wins over the annotation
+            ht = t
+            if isinstance(s.target, ast.Attribute):
+                try:
+                    self.spec_mode += 1
+                    base = self.ev(s.target.value, st.copy())
+                    ft = self.field_type(base.t.cls, self.mangle(s.target.attr)) if isinstance(base.t, TObj) else None
+                    if ft is not None:
+                        ht = ft[1]
+                except Exception:
+                    pass
+                finally:
+                    self.spec_mode -= 1
+            if isinstance(ht, TList):
+                s.value._elt_hint = ht.elt
         v = self.ev(s.value, st)
         if t is not None and isinstance(s.target, ast.Name) and not isinstance(t, TOpaque):
             try:
@@ -277,6 +293,12 @@ class StmtMixin:
             return self.retype_empty_list(st, v, t.elt)
         if isinstance(t, TOpt) and isinstance(v.t, TList) and isinstance(v.t.elt, TOpaque) and isinstance(t.inner, TList):
             return coerce(self.retype_empty_list(st, v, t.inner.elt), t)
+        if isinstance(v.t, TOpt) and not isinstance(t, (TOpt, TOpaque)) and not self.spec_mode:
+            # an Optional value flowing into a slot the sidecar declares non-optional: the declared type is a
+            # claim of the contract, so "it is not None here" is an obligation (clause `typing`), not an assumption
+            self.oblige(st, z3.Not(opt_is_none(v)), "typing", f"value of type {v.t} stored as {t}", None,
+                        note="declared non-optional")
+            return coerce(opt_get(v), t)
         return coerce(v, t)
 
     def assign(self, tgt, v: V, st: State, node):
@@ -674,6 +696,16 @@ class StmtMixin:
             hst.pc.append(f)
         for inv in spec.invariant:
             hst.pc.append(self.ev_spec(inv, hst))
+        # loop frame: at every loop head the function's own modifies clause holds relative to function entry
+        # (objects allocated at entry and outside the declared frame are unchanged).  Assumed at the havocked head,
+        # proved after each iteration; at loop entry it is an obligation too.
+        cur_c = self.cur_contract()
+        use_frame = cur_c is not None and self.entry_state is not None and not self.inline_stack
+        if use_frame:
+            for key, goal in self.frame_goals(cur_c, st, self.entry_state):
+                self.oblige(st, goal, f"{unit_clause}.frame", f"entry, frame of {key}", s)
+            for key, goal in self.frame_goals(cur_c, hst, self.entry_state):
+                hst.pc.append(goal)
         # 3. exit path
         outs = []
         ex = hst.copy()
@@ -713,6 +745,9 @@ class StmtMixin:
                             self.oblige(e, f, f"{unit_clause}.auto[{k}]", "preserved", s)
                     for k, inv in enumerate(spec.invariant):
                         self.oblige_spec(e, inv, f"{unit_clause}.invariant[{k}]", "preserved", s)
+                    if use_frame:
+                        for key, goal in self.frame_goals(cur_c, e, self.entry_state):
+                            self.oblige(e, goal, f"{unit_clause}.frame", f"preserved, frame of {key}", s)
                     if spec.decreases is not None:
                         v1 = self.as_int(self.ev_spec_val(spec.decreases, e), e, s)
                     else:
@@ -860,7 +895,21 @@ class StmtMixin:
 
             def visit_Call(self, n):
                 f = n.func
-                if isinstance(f, ast.Attribute) and f.attr in eng.MUTATORS:
+                is_container_call = isinstance(f, ast.Attribute) and f.attr in eng.MUTATORS
+                if is_container_call:
+                    # a method of a repo class may share its name with a list/set mutator (JitterBuffer.remove)
+                    try:
+                        eng.spec_mode += 1
+                        bt = eng.ev(f.value, st.copy()).t
+                    except Exception:
+                        bt = None
+                    finally:
+                        eng.spec_mode -= 1
+                    if isinstance(bt, TOpt):
+                        bt = bt.inner
+                    if isinstance(bt, TObj):
+                        is_container_call = False
+                if is_container_call:
                     out.append(("content", f.value, stable(f.value)))
                 else:
                     for w in eng.call_write_effects(n, st, stable):
